@@ -42,9 +42,11 @@ BT = "dask_array._broadcast_to"
 CC = "dask_array.stacking._concatenate"
 SK = "dask_array.stacking._stack"
 RD = "dask_array.reductions._reduction"
+RCM = "dask_array.reductions._common"
+CHK = "dask_array._chunk"
 DB = "dask.blockwise"
 MT = "dask_array._materialize"
-MODS = [MT, EX, BW, CU, RC, FA, IOB, SB, SU, "dask_array.slicing", CO, NC, TR, XP, SQ, BT, CC, SK, RD, DB]
+MODS = [MT, "dask_array.core._blockwise_funcs", "dask_array.core._conversion", EX, BW, CU, RC, FA, IOB, SB, SU, "dask_array.slicing", CO, NC, TR, XP, SQ, BT, CC, SK, RD, RCM, DB]
 STUBS = SHIM_LIST + [
     "expression classes -> symx.nodes (real methods on cloned code; constructors/tokenize bypassed, structural names); the "
     "Array collection class -> subclass with cloned methods",
@@ -98,12 +100,16 @@ class Prog:
         self.node, self.ref, self.dsk = node, ref, dsk
 
 
-def source(w, E, tag, blocks, lo=1, shape=None, hi=None):
+def source(w, E, tag, blocks, lo=1, shape=None, hi=None, chunks=None):
     """FromArray-like source: symbolic chunks (or given `shape` per axis as sums), blocks = NumPy slices of a leaf"""
     import dask_array.io._from_array as FAm
 
+    given = chunks
     chunks = []
     for a, m in enumerate(blocks):
+        if given is not None and given[a] is not None:
+            chunks.append(tuple(given[a]))  # the very same size terms as another operand: aligned by construction
+            continue
         c = tuple(E.int(f"{tag}{a}_{i}", lo, hi) for i in range(m))
         if shape is not None and shape[a] is not None:
             E.assume(sum(c) == shape[a])
@@ -229,6 +235,13 @@ def p_stack(w, ps, axis):
     return Prog(node, np.stack([q.ref for q in ps], axis=axis), dsk)
 
 
+def p_sum(w, p, axis, keepdims=False, split_every=None):
+    """the public reduction API: reductions._common.sum -> reduction() -> Sum node (lowered to Blockwise + PartialReduce)"""
+    coll = w.fn(NC, "new_collection")(p.node)
+    out = w.fn(RCM, "sum")(coll, axis=axis, keepdims=keepdims, split_every=split_every, dtype="f8")
+    return Prog(out.expr, p.ref.reduce_axis(axis, "add", keepdims=keepdims), p.dsk)
+
+
 def raw_index(E, spec, tag="k"):
     out = []
     for k, s in enumerate(spec):
@@ -291,6 +304,13 @@ def programs(tier):
     reg("transpose(x2x2)[a:b,i]", lambda w, E: p_slice(w, p_transpose(w, source(w, E, "x", (2, 2)), (1, 0)), raw_index(E, (F, "i"))), 4)
     reg("concatenate([x2,y2],0)[a:b]", lambda w, E: p_slice(w, p_concat(w, [source(w, E, "x", (2,)), source(w, E, "y", (2,))], 0), raw_index(E, (F,))), 4)
     reg("rechunk(x2->2)[a:b]", lambda w, E: p_slice(w, _rechunk_prog(w, E, (2,), (2,)), raw_index(E, (F,))), 4)
+    # reductions through the public API (Reduction -> Blockwise + PartialReduce tree), and slices pushed through them
+    reg("sum(x3,axis=0,split_every=2)", lambda w, E: p_sum(w, source(w, E, "x", (3,)), 0, split_every=2), 2)
+    reg("sum(x2x3,axis=1)", lambda w, E: p_sum(w, source(w, E, "x", (2, 3)), 1), 3)
+    reg("sum(x2x2,axis=0,keepdims)[:,a:b]", lambda w, E: p_slice(w, p_sum(w, source(w, E, "x", (2, 2)), 0, keepdims=True), raw_index(E, ((0, 0, None), F))), 5)
+    reg("sum(x2x2,axis=1)[a:b]", lambda w, E: p_slice(w, p_sum(w, source(w, E, "x", (2, 2)), 1), raw_index(E, (F,))), 5)
+    reg("sum(x2x2,axis=0)[i]", lambda w, E: p_slice(w, p_sum(w, source(w, E, "x", (2, 2)), 0), raw_index(E, ("i",))), 4)
+    reg("sum(x2+y2,axis=0)", lambda w, E: p_sum(w, _add_aligned(w, E, (2,)), 0), 3)
     # every pushdown target once: slice over X and rechunk over X
     reg("expand_dims(x2x2,(1,))[a:b,:,i]", lambda w, E: p_slice(w, p_expand(w, source(w, E, "x", (2, 2)), (1,)), raw_index(E, (F, (0, 0, None), "i"))), 4)
     reg("broadcast_to(x2,(n,)+shape)[i,a:b]", lambda w, E: p_slice(w, p_broadcast(w, source(w, E, "x", (2,)), (E.int("lead", 1),)), raw_index(E, ("i", F))), 4)
@@ -338,10 +358,7 @@ def _rechunk_over(w, E, p, new_blocks, tag="r"):
 
 def _add_aligned(w, E, blocks):
     x = source(w, E, "x", blocks)
-    y = source(w, E, "y", blocks)
-    for a in range(len(blocks)):
-        for i in range(blocks[a]):
-            E.assume(y.node.chunks[a][i] == x.node.chunks[a][i])
+    y = source(w, E, "y", blocks, chunks=x.node.chunks)
     return p_elemwise(w, operator.add, x, y)
 
 
